@@ -206,6 +206,9 @@ func genC20(g *Gen) {
 		sep := []string{"", "."}[r.Intn(2)]
 		g.Add(c20PathIdxCase(name, idxs[r.Intn(len(idxs))], sep, maxIdx, r.Bool()))
 	}
+	// explicit indices at and behind the end of lists that are longer than MaxIdx+1 (model: the C12
+	// machinery with the growth law of C07)
+	c07ListHists(g, g.N/6+4, "CSeven")
 	// names inside references and on the left of every operator are path segments like any other:
 	// read under EnableNumKeys / EscapePath (model: the C02 evaluation machinery)
 	g.Wrap = "CDyn20"
@@ -213,7 +216,7 @@ func genC20(g *Gen) {
 		nk, esc := r.Bool(), r.P(1, 3)
 		num := []string{"7", "0", "1", "0x0", "03", "12"}[r.Intn(6)]
 		ops := func(n string) string {
-			return []string{"${%s}", "${%s:dflt}", "${%s:+set}", "${%s:?unset}", "x${%s:+y}z"}[r.Intn(5)]
+			return []string{"${%s}", "${%s:dflt}", "${%s:+set}", "${%s:?unset}", "x${%s:+y}z", "${${k_%s}}"}[r.Intn(6)]
 		}
 		s := c02Setup{NumKeys: nk, Escape: esc, Root: map[string]interface{}{"a": "va"}}
 		if r.Bool() {
@@ -222,6 +225,7 @@ func genC20(g *Gen) {
 		if r.Bool() {
 			s.Root["l"] = []interface{}{"e0", "e1"}
 		}
+		s.Root["k_"+num] = num // a setting that holds the name: ${${k_N}} computes it when it is read
 		s.Root["out"] = fmt.Sprintf(ops(num), num)
 		s.Root["out2"] = fmt.Sprintf(ops(num), num)
 		if r.Bool() {
